@@ -275,6 +275,7 @@ func jsonvecMain(args []string) int {
 		go func(w, lo, hi int) {
 			defer wg.Done()
 			rng := rand.New(rand.NewSource(*seed*1000 + int64(w)))
+			reuse := map[int][]byte{} // one caller-owned buffer per length, refilled with vector after vector
 			for k := lo; k < hi; k++ {
 				v := &vecs[k]
 				inputs := [][]byte{v.raw}
@@ -314,6 +315,22 @@ func jsonvecMain(args []string) int {
 					trunc := false
 					if n > 0 {
 						trunc = det(raw, uint32(n))
+					}
+					if vi == 0 && n > 0 {
+						// the same bytes in a buffer that held another vector of this length a moment ago
+						buf, ok := reuse[n]
+						if !ok {
+							buf = make([]byte, n)
+							reuse[n] = buf
+						}
+						copy(buf, raw)
+						if r0 := det(buf, 0); r0 != whole0 {
+							prop := map[bool]string{true: "C08", false: "C09"}[whole0]
+							if v.q != "json" {
+								prop = "C10"
+							}
+							rep.violate(mkViolation(prop, "verdict-differs-in-a-reused-buffer", raw, 0, fmt.Sprintf("query=%s: private copy %v, reused buffer %v", v.q, whole0, r0)))
+						}
 					}
 					if whole0 != whole1 {
 						rep.violate(mkViolation("C08", "whole-mode-differs-limit0-vs-len+1", raw, int64(n+1), fmt.Sprintf("query=%s limit0=%v limit=len+1=%v", v.q, whole0, whole1)))
